@@ -85,8 +85,9 @@ def record(tw, rng, n, stats, probe_cap=60):
             pw = pv.get_partial_pressures(T, m, cw, model)
             px = pv.get_partial_pressures(T, m, cx, model)
             g = calculate_activity_coefficients(T, m, cx, model)
+            gw = calculate_activity_coefficients(T, m, cw, model)         # the same state supplied as a mass fraction
             tr.append({"ev": "PP", "model": model, "T": F(T), "w": F(w), "x": F(cx.first), "x2": F(cx.second),
-                       "g": [F(g[0]), F(g[1])],
+                       "g": [F(g[0]), F(g[1])], "g_w": [F(gw[0]), F(gw[1])],
                        "psat": [F(m.first_component.get_vapor_pressure(T)), F(m.second_component.get_vapor_pressure(T))],
                        "p_w": [F(pw[0]), F(pw[1])], "p_x": [F(px[0]), F(px[1])]})
             stats["nontrivial"].add((m.name, model, T, x))
